@@ -281,38 +281,36 @@ fn unknown_case(host: Host, src: &mut Src, obs: &mut Obs) -> CaseResult {
         // extension maps, `transports` in a descriptor, further option ids in an options map) is
         // "unknown" only as long as the crate has not adopted it: if some value under the key is
         // ACCEPTED AND STORED (the decoded request changes), the crate knows the member by now and
-        // the same value is sent under a made-up key instead. A key whose values are merely refused
+        // the same value is sent under another key instead. A key whose values are merely refused
         // for some types while nothing is ever stored is not a member - refusing it is the violation.
-        let name = kk.as_str().unwrap_or("").to_string();
-        if host.registered_elsewhere().contains(&name.as_str()) {
+        // Every candidate key (first choice and every replacement) goes through the same test.
+        let mut tries = 0;
+        loop {
+            let name = kk.as_str().unwrap_or("").to_string();
+            let clash = host.known_keys().contains(&name.as_str()) || used.iter().any(|u| Some(&u[..]) == kk.as_text());
             let mut adopted = false;
-            for t in 0..7 {
-                let mut v = model.clone();
-                if let Some(Value::Map(m)) = mutate::get_mut(&mut v, &hp) {
-                    m.push((kk.clone(), mutate::palette(t)));
-                }
-                let mut msg = vec![cmd];
-                msg.extend_from_slice(&refcbor::encode(&v));
-                let with = Request::deserialize(&msg);
-                if with.is_ok() && with != Request::deserialize(&base) {
-                    adopted = true;
-                }
-            }
-            if adopted {
-                obs.label("registered-name:treated-as-known-member");
-                for _ in 0..6 {
-                    kk = unknown_key(host, src, &used);
-                    if !host.registered_elsewhere().contains(&kk.as_str().unwrap_or("")) {
-                        break;
+            if !clash && host.registered_elsewhere().contains(&name.as_str()) {
+                for t in 0..7 {
+                    let mut v = model.clone();
+                    if let Some(Value::Map(m)) = mutate::get_mut(&mut v, &hp) {
+                        m.push((kk.clone(), mutate::palette(t)));
+                    }
+                    let mut msg = vec![cmd];
+                    msg.extend_from_slice(&refcbor::encode(&v));
+                    let with = Request::deserialize(&msg);
+                    if with.is_ok() && with != Request::deserialize(&base) {
+                        adopted = true;
                     }
                 }
-                if host.registered_elsewhere().contains(&kk.as_str().unwrap_or("")) {
-                    kk = Value::Text(format!("zz-made-up-{}", used.len()).into_bytes());
+                if adopted {
+                    obs.label("registered-name:treated-as-known-member");
                 }
             }
-        }
-        if host.known_keys().contains(&kk.as_str().unwrap_or("")) || used.iter().any(|u| Some(&u[..]) == kk.as_text()) {
-            kk = unknown_key(host, src, &used);
+            if !clash && !adopted {
+                break;
+            }
+            tries += 1;
+            kk = if tries < 6 { unknown_key(host, src, &used) } else { Value::Text(format!("zz-made-up-{}-{}", used.len(), tries).into_bytes()) };
         }
         container |= vv.is_container_or_tag();
         used.push(kk.as_text().unwrap().to_vec());
